@@ -681,6 +681,11 @@ func (x *exec) structToView(u Unit, o lib, b []byte, root chunk) {
 	}
 	if r != common.Root(root) {
 		x.viol("C05", "struct-to-view-root/"+u.Type, fmt.Sprintf("%s (%s): value.View() has root %s, the value has root %x (value %s)", u.Type, x.presetName(), r, root, hex8(b)))
+		if x.stop || x.prop != "C15" {
+			return
+		}
+		// (under C15 the wrong root is C05's matter: the getters of this view are still compared)
+		x.subViewGetters(u, o, outs[0])
 		return
 	}
 	// and back: view.Raw() is the value again
